@@ -225,7 +225,7 @@ template <typename... Ts, typename... Us>
 [[nodiscard]] constexpr auto operator==(tuple<Ts...> const& lhs, tuple<Us...> const& rhs) -> bool
 {
     if constexpr (sizeof...(Ts) == 0) {
-        return false;
+        return true;
     } else {
         return [&]<etl::size_t... Is>(etl::index_sequence<Is...> /*i*/) {
             using etl::get;
